@@ -306,6 +306,7 @@ package vuego
 
 //@ func (v *Vue) evaluate(ctx, nodes, depth) (res, err)
 //@   ensures C04+C05.balance: BALANCED(ctx)
+//@   assert C16.marked: hasAttrUpTo(node.Attr, "v-once", len(node.Attr)) ==> ctx.seen[getAttrFrom(node.Attr, "v-once-id", 0)] at "helpers.HasAttr(node, \"v-pre\")"
 //@   loop 0 invariant C03+C04.loop.bounds: 0 <= i && i <= len(nodes)
 //@   loop 0 invariant C04+C05.balance.loop: BALANCED(ctx)
 
@@ -442,8 +443,18 @@ package vuego
 //@   modifies nothing
 //@ func extractFrontMatter(content) (fm, rest, err)
 //@   modifies nothing
+//@ spec func parsedFM(fsys Val, f string, t int) map[string]any
+//@ spec func parsedDom(fsys Val, f string, t int) []*html.Node
+//@ spec func domOfBytes(b []byte) []*html.Node
+//@ spec func curInstant(fsys Val, f string) int { instant(modTimeOf(statInfo(fsys, f))) }
+
+// Reading a file yields the content that belongs to the modification time a Stat reports at that moment
+// (no edit between Stat and read) - the documented assumption of the cache; a missing file is an error.
 //@ func (l *Loader) loadFragment(filename) (fm, b, err)
+//@   trusted
 //@   modifies nothing
+//@   ensures err == nil ==> fm == parsedFM(l.FS, filename, curInstant(l.FS, filename)) && domOfBytes(b) == parsedDom(l.FS, filename, curInstant(l.FS, filename))
+//@   ensures l.FS != nil && !fileExists(l.FS, filename) ==> err != nil
 //@ func (ctx VueContext) WithTemplate(filename) (r)
 //@   modifies nothing
 //@   ensures C05.shared.stack: r.stack == ctx.stack && r.seen == ctx.seen && r.SlotScope == ctx.SlotScope
@@ -491,3 +502,31 @@ package vuego
 //@   holds ctx.stack
 //@   ensures C06.balance: BALANCED(ctx)
 //@   loop 2 invariant C06.balance.loop: len(ctx.stack.stack) == old(len(ctx.stack.stack)) + 1 && (forall bi int :: 0 <= bi && bi < old(len(ctx.stack.stack)) ==> ctx.stack.stack[bi] == old(ctx.stack.stack[bi]))
+
+// ---- v-once bookkeeping (C16) ----
+
+//@ func (p NodeProcessor) New() (r)
+//@   trusted
+//@   modifies nothing
+
+//@ func NewVueContext(fromFilename, options) (r)
+//@   modifies nothing
+//@   ensures C16.fresh.seen: fresh(r.seen) && r.seen != nil && forall k string :: !(k in r.seen)
+//@   ensures C09+C16.ctx.stack: r.stack == options.Stack && r.FromFilename == fromFilename
+//@   loop 0 invariant frame.result: fresh(result.seen) && result.seen != nil && result.stack == options.Stack && result.FromFilename == fromFilename && (forall k string :: !(k in result.seen))
+
+// ---- template cache freshness (C15) ----
+
+//@ writer Vue WithFS$1
+//@ writer Vue NewVue
+//@ invariant (v *Vue) C15.loader.fs: v.loader != nil && v.loader.FS == v.templateFS
+//@ invariant (v *Vue) C15.cache.inv: forall f string :: (f in v.templateCache) ==> v.templateCache[f] != nil &&
+//@   v.templateCache[f].frontMatter == parsedFM(v.templateFS, f, instant(v.templateCache[f].modTime)) &&
+//@   v.templateCache[f].dom == parsedDom(v.templateFS, f, instant(v.templateCache[f].modTime))
+
+//@ func (v *Vue) loadCachedWithFrontMatter(filename) (fm, dom, err)
+//@   modifies contents(v.templateCache)
+//@   ensures C15.fresh: err == nil && v.templateFS != nil && fileExists(v.templateFS, filename) && curInstant(v.templateFS, filename) != 0 ==>
+//@     fm == parsedFM(v.templateFS, filename, curInstant(v.templateFS, filename)) && dom == parsedDom(v.templateFS, filename, curInstant(v.templateFS, filename))
+//@   ensures C15.missing: v.templateFS != nil && !fileExists(v.templateFS, filename) ==> err != nil
+//@   ensures C15.no.partial: err != nil ==> forall f string :: ((f in v.templateCache) == old(f in v.templateCache)) && v.templateCache[f] == old(v.templateCache[f])
